@@ -22,7 +22,7 @@ func (flavor) Profile() lc.Profile { return lc.Profile{Validate: 3, Stop: 5, Log
 func (flavor) Impl(ops []lc.Op, obs []lc.StepObs) string {
 	parts := make([]string, len(obs))
 	for i, o := range obs {
-		parts[i] = o.Res + "|" + o.Raw + "|" + lc.ShowSocks(o) + "|" + lc.ShowPool(o.MPool) + "|" + strconv.Itoa(o.DStor)
+		parts[i] = o.Res + "|" + o.Raw + "|" + lc.ShowSocks(o) + "|" + lc.ShowPool(o.MPool) + "|" + strconv.Itoa(o.DStor) + "|" + strconv.Itoa(o.DLogger)
 	}
 	return strings.Join(parts, " ")
 }
@@ -34,7 +34,8 @@ func (flavor) Impl(ops []lc.Op, obs []lc.StepObs) string {
 func (flavor) Oracle(ops []lc.Op, obs []lc.StepObs) []core.Failure {
 	var fails []core.Failure
 	var running *lc.Cfg
-	specStor := 0 // certmagic.Default.Storage by the spec: the storage of the last accepted configuration
+	specLogger := 0 // the operation (+1) whose configuration's default log should be the process default logger
+	specStor := 0   // certmagic.Default.Storage by the spec: the storage of the last accepted configuration
 	for i, o := range obs {
 		op := ops[i]
 		attempted := lc.Attempted(op, running)
@@ -64,6 +65,19 @@ func (flavor) Oracle(ops []lc.Op, obs []lc.StepObs) []core.Failure {
 		if o.DStor != specStor {
 			fails = append(fails, core.Failure{Class: "default-storage-differs-from-running-config",
 				What: fmt.Sprintf("op %d (%s → %s): certmagic.Default.Storage is storage %d, expected storage %d (the running configuration's; caddy's default if nothing runs)", i, op, o.Res, o.DStor, specStor)})
+		}
+		// the process-wide default logger (caddy.Log()): the running configuration's after an accepted
+		// attempt; a rejected attempt, a dry run, Stop and requests that run nothing must not move it
+		if o.Res == "ok" && attempted != nil && op.Kind != 'V' && op.Kind != 'S' {
+			specLogger = i + 1
+		}
+		if o.DLogger != specLogger {
+			cls := "default-logger-differs"
+			if o.DLogger > 0 && o.DLogger <= len(obs) && loggerLeftBy(ops[o.DLogger-1], obs[o.DLogger-1]) {
+				cls = "default-logger-left-by-rejected-or-validated-config"
+			}
+			fails = append(fails, core.Failure{Class: cls,
+				What: fmt.Sprintf("op %d (%s → %s): caddy.Log() is the default logger set up for operation %d, the running configuration's is that of operation %d (0 = none / initial) — openLogs makes the new config's default log the process default before anything else is provisioned and nothing undoes it when the config is not used", i, op, o.Res, o.DLogger-1, specLogger-1)})
 		}
 		wantRaw := "null"
 		if running != nil {
@@ -138,6 +152,22 @@ func enteredRun(op lc.Op, o lc.StepObs, attempted *lc.Cfg) bool {
 		return true
 	}
 	if attempted == nil || (op.Kind != 'L' && op.Kind != 'P' && op.Kind != 'D') {
+		return false
+	}
+	switch o.Res {
+	case "ok", "same", "err:index", "err:decode", "err:path", "err:body":
+		return false
+	}
+	return true
+}
+
+// loggerLeftBy: operation (op, o) set up logging for a configuration that did not become the
+// running one — a dry run, or a load / change rejected after run() had been entered.
+func loggerLeftBy(op lc.Op, o lc.StepObs) bool {
+	if op.Kind == 'V' {
+		return true
+	}
+	if op.Kind != 'L' && op.Kind != 'P' && op.Kind != 'D' {
 		return false
 	}
 	switch o.Res {
